@@ -1718,6 +1718,21 @@ class Translator:
         cands = [n for n in body if isinstance(n, ast.FunctionDef) and n.name == name]
         if not cands:
             raise Untranslatable(f'function {name} not found in {file}')
+        if len(cands) > 1:
+            raise Untranslatable(f'function {name} is defined more than once in {file}')
+        for n in body:
+            tg = []
+            if isinstance(n, ast.Assign):
+                tg = n.targets
+            elif isinstance(n, (ast.AugAssign, ast.AnnAssign)):
+                tg = [n.target]
+            if any(isinstance(t, ast.Name) and t.id == name for t in tg):
+                raise Untranslatable(f'the name {name} is rebound after the definition ({ast.unparse(n)[:60]})')
+        for d in cands[0].decorator_list:
+            # a decorator changes what a call of the function does (a cache makes callers share one result object):
+            # only the ones that merely bind the first argument are within the fragment
+            if not (isinstance(d, ast.Name) and d.id in ('classmethod', 'staticmethod')):
+                raise Untranslatable(f'function {name} is decorated with {ast.unparse(d)}')
         return cands[0]
 
     GROUPS = {'mido/messages/encode.py': 'Codec', 'mido/messages/decode.py': 'Codec', 'mido/messages/checks.py': 'Codec',
